@@ -338,3 +338,54 @@ PROPERTIES = {
 
 for _p in PROPERTIES.values():
     _p.setdefault("assumptions", COMMON_ASSUMPTIONS)
+
+
+# ---- round-3 additions (generic discipline rules and rules added for seeded changes that were missed) ------------------
+from . import fam_g as G      # noqa: E402
+from . import fam_d2 as D2    # noqa: E402
+
+_SEARCH = (("mofun.mofun", None), ("mofun.helpers", ("atoms_of_type", "atoms_by_type_dict", "group_duplicates", "remove_duplicates", "position_index_farthest_from_axis",
+                                                        "quaternion_from_two_vectors", "quaternion_from_two_vectors_around_axis", "positions_are_unchanged")))
+_ATOMS = (("mofun.atoms", None),)
+_SCOPES = {
+    "C01": _SEARCH, "C02": _SEARCH, "C03": _SEARCH, "C04": _SEARCH, "C05": _SEARCH, "C06": _SEARCH, "C07": _SEARCH, "C08": _SEARCH,
+    "C09": _ATOMS, "C10": _ATOMS, "C11": _ATOMS, "C12": _ATOMS,
+    "C13": (("mofun.atoms", ("Atoms.load_lmpdat", "Atoms.save_lmpdat")), ("mofun.helpers", ("guess_elements_from_masses",))),
+    "C14": (("mofun.helpers", ("guess_elements_from_masses",)), ("mofun.atoms", ("Atoms.load_lmpdat",))),
+    "C15": (("mofun.atoms", ("Atoms.load_p1_cif", "Atoms.save_p1_cif")),),
+    "C16": (("mofun.atoms", ("Atoms.load_cml",)),),
+    "C17": (("mofun.detect_bonds", None),),
+    "C18": (("mofun.rough_uff", None),),
+    "C19": (("mofun.rough_uff", None),),
+    "C20": (("mofun.cli.mofun_cli", None),),
+}
+for _id, _sc in _SCOPES.items():
+    PROPERTIES[_id]["rules"].append((G.G2_presence_tests, "%s presence tests: optional indices tested with `is None`, selections with len(), signed data not through its sum" % _id, {"scope": _sc}))
+    PROPERTIES[_id]["rules"].append((G.G3_one_shot_iterators, "%s one-shot iterators are consumed once and never inside a loop that does not re-create them" % _id, {"scope": _sc}))
+    PROPERTIES[_id]["decided"] += "; optional index parameters are tested against None (never by truth value), selections are tested for emptiness by length, one-shot iterators are consumed once"
+
+_EXTRA = {
+    "C01": [(C.C_element_gate_equality, "C01.1 the starting-atom helper compares elements by equality (no substring membership)")],
+    "C02": [(C.C_element_gate_equality, "C02 starting atoms: element equality"),
+            (A2.A15_none_tests, "C02 hints honoured for every valid index including 0 (a hint of 0 must not trigger the farthest-point fallback)")],
+    "C03": [(C.C_axis_diag, "C03 the orthorhombic fast path is taken only for exactly diagonal cell matrices"),
+            (A2.A14b_fallback_axis, "C03 antiparallel poses: detection with tolerance, angle test without exact pi, non-degenerate fallback axis")],
+    "C04": [(C.C_return_shape, "C04 the search returns the shape its flag announces on every path (an empty search is an empty result, not an unpack error)")],
+    "C05": [(C.C_roll_gate, "C05 the roll about the matched axis is applied to every match with more than two atoms")],
+    "C08": [(A2.A14b_fallback_axis, "C08 reversibility needs every pose to be found again: antiparallel detection, angle test, fallback axis"),
+            (C.C_roll_gate, "C08 the roll about the matched axis is applied to every match with more than two atoms")],
+    "C12": [(C.C_axis_diag, "C12 np.diag(cell) is the box only under the exact orthorhombic test")],
+    "C15": [(C.C_axis_diag, "C15 Cartesian <-> fractional handling never uses the cell diagonal as the box without the orthorhombic test")],
+    "C17": [(C.C_axis_diag, "C17 periodic images come from the lattice rows; the cell diagonal is never used as the box without the orthorhombic test")],
+    "C18": [(D2.D5_torsion_table, "C18.5 torsion case analysis agrees with the documented UFF case table on every abstract type combination"),
+            (D2.D6_bond_order_precedence, "C18.4 user bond-order rules take precedence over every built-in guess and are forwarded by every parameter function")],
+    "C19": [(D2.D6_bond_order_precedence, "C19 term parameters honour the user bond-order rules")],
+    "C20": [(A2.A18b_pair_params_parallel, "C20 --pp: one pair coefficient and one label per atom type, in type order"),
+            (C.C_axis_diag, "C20 --mic: the cell diagonal is the box only under the exact orthorhombic test")],
+}
+for _id, _rules in _EXTRA.items():
+    PROPERTIES[_id]["rules"].extend(_rules)
+PROPERTIES["C18"]["decided"] += ("; the torsion case analysis of dihedral_params, evaluated over the finite partition of hybridisation characters and element classes induced by its own "
+                                 "comparisons, selects the documented case (n, sign, barrier monomial incl. the division by the multiplicity) for every combination; user bond-order rules dominate built-in guesses")
+PROPERTIES["C18"]["explanation"] += " Decision-table evaluation over a finite abstract domain (representatives of the comparison-induced partition; no execution)."
+PROPERTIES["C20"]["decided"] += "; the minimum-image replication factor is ceil(2*mic/length); --pp produces one coefficient line and one label per atom type"
